@@ -194,4 +194,18 @@ theorem every_scope_is_popped (n : Nat) (b : List (Stmt F)) (st : St F) :
 theorem every_scope_is_popped_expr (n : Nat) (e : Expr F) (st : St F) :
     (evalE ops ext prog n e st).st.locals.length = st.locals.length := scopes_balanced_expr ops ext prog n e st
 
+/-- **whole programs**: an if chain or a while loop, whatever the bodies declare and however they end,
+leaves every scope with exactly the names it had — a declaration inside a block is not visible after
+the block, and shadowing an outer name inside never removes or renames the outer one -/
+theorem block_declarations_do_not_leak (n : Nat) (s : Stmt F) (st : St F)
+    (hs : (∃ cs e, s = .ifS cs e) ∨ (∃ c b, s = .whileS c b)) :
+    (execS ops ext prog n s st).st.locals.map keys = st.locals.map keys :=
+  if_while_declare_nothing_outside ops ext prog n s st hs
+
+/-- and in general (any statement list): outer scopes keep exactly their names, the innermost scope
+keeps its names in order and may gain the ones declared at this level -/
+theorem names_only_added_at_this_level (n : Nat) (b : List (Stmt F)) (st : St F) :
+    ScopesExt st.locals (execStmts ops ext prog n b st).st.locals :=
+  ((frame_invariant ops ext prog n).2.2.2.2.2.2.1 b st).locals
+
 end EvyV.C10
